@@ -451,6 +451,57 @@ def run_own_source(params, known):
     return dict(name=params['name'], evaluations=count, nontrivial_keys=sorted(keys), violations=violations, known=[], samples=[])
 
 
+def run_ipn3(params, known):
+    '''Three-number ipn endpoint IDs (allocator.node.service): sources that differ only in the
+    third number are different identities, a destination that differs from a routed one only by
+    having a third number matches no route, and a bundle from ipn:A.0.9 is not a bundle of the node
+    ipn:A.0.'''
+    violations = []
+    kinds = set()
+    count = 0
+    keys = set()
+    T0 = 700000000000
+
+    def viol(kind, detail, case):
+        if kind in kinds:
+            return
+        kinds.add(kind)
+        v = Violation(PROP, 'router', kind, dict(), '%r: %s' % (case, detail)).as_dict()
+        v['case'] = case
+        violations.append(v)
+
+    def mk(src, dest, seq, data):
+        return B.encode(dict(primary=dict(flags=0, crc_type=1, dest=dest, src=src, report_to='dtn:none', ts=(T0, seq), lifetime=3600000),
+                             blocks=[dict(type=1, num=1, flags=0, crc_type=1, data=data)]))
+    cases = [
+        ('sources-differ-in-third-number', 'ipn:977000.9.0', [('^ipn:977000\\.9\\.', 'deliver')],
+         [('ipn:977000.100.1', 'ipn:977000.9.4', 5, b'one'), ('ipn:977000.100.2', 'ipn:977000.9.4', 5, b'two'), ('ipn:977000.100', 'ipn:977000.9.4', 5, b'three')],
+         3),
+        ('destination-with-third-number-matches-no-route', 'ipn:977000.9.0', [('^ipn:977000\\.7$', 'deliver')],
+         [('ipn:5.1', 'ipn:977000.7.3', 1, b'x'), ('ipn:5.1', 'ipn:977000.7', 2, b'y')], 1),
+        ('other-node-with-third-number-is-not-this-node', 'ipn:4196183048.0', [('.*', 'deliver')],
+         [('ipn:4196183048.0.9', 'ipn:4196183048.0.1', 1, b'z')], 1),
+    ]
+    for (name, node, rx, arrivals, want) in cases:
+        for order in (arrivals, list(reversed(arrivals))):
+            count += 1
+            case = dict(case=name, arrivals=[(a[0], a[1]) for a in order])
+            world = BpWorld(dict(node_id=node, rx_routes=[(p.replace('\\\\', '\\'), a) for (p, a) in rx], tx_routes=TX_ROUTES))
+            for (src, dest, seq, data) in order:
+                world.receive(mk(src, dest, seq, data))
+                world.quiesce()
+            keys.add('%s/%d' % (name, count))
+            if world.escaped or world.api_errors:
+                esc = (world.escaped or world.api_errors)[-1]
+                viol('exception-escaped', '%s: %s' % (esc[0], esc[2] if world.escaped else esc[1]), case)
+                continue
+            got = [(d['src'], [bytes.fromhex(b[2]) for b in d['blocks'] if b[0] == 1]) for d in world.probe.seen]
+            if len(got) != want or len(world.sent()):
+                viol('deliveries-differ-from-reference', 'delivered %r (reference: %d deliveries, nothing transmitted; transmitted %d)'
+                     % (got, want, len(world.sent())), case)
+    return dict(name=params['name'], evaluations=count, nontrivial_keys=sorted(keys), violations=violations, known=[], samples=[])
+
+
 def run_long_history(params, known):
     '''A delivered and a forwarded bundle, then N other bundles, then the two again: acted on once
     whatever N (the identity memory does not forget while the agent runs).'''
@@ -509,10 +560,12 @@ def scenarios(tier):
     depth = 4 if tier == 'thorough' else 3
     out = []
     for table in TABLES:
-        # split by first event for parallelism
+        # split by first event for parallelism; the thorough tier goes one arrival deeper under the two tables
+        # with overlapping entries in opposite orders (an hour of search for all five brought nothing new)
+        tdepth = depth if (tier != 'thorough' or table in ('overlap-a', 'forward-first')) else depth - 1
         for first in range(MAIN):
             out.append(dict(name='%s/first-%s' % (table, MENU[first][0]), kind='graph',
-                            params=dict(table=table, max_depth=depth, first=first), dev_bound=0, use_snapshot=False,
+                            params=dict(table=table, max_depth=tdepth, first=first), dev_bound=0, use_snapshot=False,
                             liveness=False, max_states=500000, weight=1))
     # fragments of look-alike bundles (same source and time, next sequence number; a millisecond later), interleaved
     for table in ('deliver-first', 'overlap-b'):
@@ -520,6 +573,7 @@ def scenarios(tier):
             out.append(dict(name='twins/%s/first-%s' % (table, MENU[first][0]), kind='graph',
                             params=dict(table=table, max_depth=depth + 1, first=first, menu=TWINS), dev_bound=0, use_snapshot=False,
                             liveness=False, max_states=500000, weight=1))
+    out.append(dict(name='ipn3', kind='enum', runner='run_ipn3', params=dict(name='ipn3'), weight=3))
     out.append(dict(name='own-source', kind='enum', runner='run_own_source', params=dict(name='own-source'), weight=3))
     out.append(dict(name='long-history', kind='enum', runner='run_long_history', params=dict(name='long-history'), weight=3))
     for part in range(4):
@@ -550,10 +604,11 @@ def _check_state(self):
 HistWorld.check_state = _check_state
 
 ASSUMPTIONS = [
-    'receive histories of at most 3 (quick) / 4 (thorough) bundles from a menu of fourteen, idle callbacks interleaved in every order',
+    'receive histories of at most 3 (quick) / 4 (thorough, under the tables overlap-a and forward-first; 3 under the others) bundles from a menu of fourteen, idle callbacks interleaved in every order',
     'twins scenarios: histories of at most 4 (quick) / 5 (thorough) fragments of three look-alike fragmented bundles (same source; same time and the next sequence number; a millisecond later), under two tables',
     'a delivered bundle carries its own application data (for a reassembled one: the octets of its own fragments)',
     'configuration file: every receive table of up to 3 entries over 4 usable + 4 unusable entries (670 documents with the transmit tables of up to 3 over 2 + 2), read by the JSON-subset stand-in for PyYAML; five destinations routed through each',
+    'three-number ipn endpoint IDs: look-alike sources, a destination one number longer than the routed one, a foreign node one number longer than this node',
     'own source: node IDs in mixed case, lower case, with dots and in the ipn scheme; the reports and the application bundle the node emitted are fed back to it',
     'long histories: 0, 1, 255, 256, 257, 300 and 1100 other bundles between the first copies of a delivered and a forwarded bundle and their repeats',
     'routing patterns are matched with re.match (anchored at the start) as the configuration loader compiles them',
